@@ -62,6 +62,7 @@ func (p *c03) Gen(seed uint64, i int, tier string) (any, bool) {
 		sc.Server.Caps = []string{"8BITMIME"}
 	}
 	sc.PreRender = r.Chance(1, 2)
+	sc.Server.MultiLine = r.Chance(1, 5)
 	shape := DefaultShape
 	shape.StableOnly = true
 	shape.MaxContent = 300
@@ -69,6 +70,13 @@ func (p *c03) Gen(seed uint64, i int, tier string) (any, bool) {
 	var batch []MsgSpec
 	for m := 0; m < nm; m++ {
 		batch = append(batch, GenMsg(r, fmt.Sprintf("m%dx%d", m, i%997), shape))
+	}
+	if r.Chance(1, 6) {
+		// a nil *Msg somewhere in the batch (skipped by Send; must not shift anybody's error)
+		at := r.Intn(len(batch) + 1)
+		nb := append([]MsgSpec(nil), batch[:at]...)
+		nb = append(nb, MsgSpec{Token: "nil", NoMsg: true})
+		batch = append(nb, batch[at:]...)
 	}
 	sc.Batches = [][]MsgSpec{batch}
 	if sc.Op == "send" && r.Chance(1, 5) {
@@ -81,9 +89,9 @@ func (p *c03) Gen(seed uint64, i int, tier string) (any, bool) {
 	}
 	if useProducer {
 		for k, tries := 0, 0; k < 1+r.Intn(2) && tries < 10; tries++ {
-			mi := r.Intn(nm)
+			mi := r.Intn(len(sc.Batches[0]))
 			m := &sc.Batches[0][mi]
-			if m.producerCount() == 0 {
+			if m.NoMsg || m.producerCount() == 0 {
 				continue
 			}
 			j := r.Intn(m.producerCount())
